@@ -273,8 +273,16 @@ def global_state(repo, res):
     _global_state(repo, res)
     from ..registry import anchor_props
 
+    kernel_props = {f"C{i:02d}" for i in range(1, 12)}
     for f_ in res.findings:
-        f_.props = tuple(sorted({"C12"} | anchor_props(f_.key.split(":")[0])))
+        mod_ = f_.key.split(":")[0]
+        props_ = {"C12"} | anchor_props(mod_)
+        # state kept by a stage that kernels are generated from (analysis, IR, code generation - not the JIT driver, the options or the
+        # command line) makes every later kernel of the process a function of the earlier requests: every kernel property quantifies over
+        # such kernels too
+        if mod_.startswith(("ffcx.ir.", "ffcx.codegeneration.", "ffcx.analysis", "ffcx.element_interface")) and not mod_.endswith(".jit"):
+            props_ |= kernel_props
+        f_.props = tuple(sorted(props_))
 
 
 def _global_state(repo, res):
